@@ -518,9 +518,8 @@ def _merge_justified(ctx, F, b, R, bb, args, lits, rule, site, span):
     # (c) composition: created == 1 and created + skipped == K
     created = None
     total = None
-    for lit in lits:
-        if lit[0] == 'true' and lit[1][0] == 'bin' and lit[1][1] == 'Eq':
-            a, c_ = lit[1][2], lit[1][3]
+    for op__, a, c_ in cmp_facts(lits):
+        if op__ == 'Eq':
             if a[0] == 'var' and c_ == ('const', 1):
                 created = a
             x = a
